@@ -73,6 +73,9 @@ type _LexerStateMachine struct {
 	// pending is true while text accumulated by fragments is waiting for a
 	// rule that emits or discards it.
 	pending bool
+
+	// consumed is true once the current match has consumed a character.
+	consumed bool
 }
 
 func (l *_LexerStateMachine) PushRune(r rune) int {
@@ -118,6 +121,7 @@ func (l *_LexerStateMachine) PushRune(r rune) int {
 			switch {
 			case r >= rune(mode[k]) && r <= rune(mode[k+1]):
 				l.state = int(mode[k+2])
+				l.consumed = true
 				return _lexerConsume
 			case r < rune(mode[k]):
 				e = j
@@ -131,6 +135,14 @@ func (l *_LexerStateMachine) PushRune(r rune) int {
 
 	// Move 'i' to the beginning of the actions section.
 	i += gotoN * 3
+
+	// A rule never matches the empty string. Without this, a rule such as
+	// A = 'a'* would be accepted again and again at the same position, and an
+	// accumulating fragment such as @frag 'k'* would be retried forever.
+	if !l.consumed {
+		i = end
+	}
+	l.consumed = false
 
 	for ; i < end; i += 2 {
 		switch mode[i] {
@@ -179,6 +191,7 @@ func (l *_LexerStateMachine) Reset() {
 	l.mode = nil
 	l.state = 0
 	l.pending = false
+	l.consumed = false
 }
 
 func (l *_LexerStateMachine) Token() int {
